@@ -3,8 +3,9 @@ LevelBasedForaging (jumanji/environments/routing/lbf/{env,utils,observer,generat
 Import-free.
 
 L1 = transliteration of `step`, `get_reward`, `utils.simulate_agent_movement`, `flag_duplicates`,
-`fix_collisions`, `update_agent_positions`, `eat_food`, `compute_action_mask`, `VectorObserver` and
-`GridObserver`.  Agents are compared by their `id` field exactly as the source does.  Rewards are exact
+`fix_collisions`, `update_agent_positions`, `eat_food`, `compute_action_mask`, `VectorObserver`,
+`GridObserver` and `generator.RandomGenerator` (`generate`; what it draws is the parameter `GenDraw`, the supports
+of its samplers are `validDraw`).  Agents are compared by their `id` field exactly as the source does.  Rewards are exact
 rationals (the implementation computes them in float32; the correspondence compares within tolerance);
 `nan_to_num(r / 0)` is modelled by Lean's `r / 0 = 0` (exact for the only reachable case `0 / 0`).
 `jnp.unique(..., return_counts)` in `flag_duplicates` is modelled by its meaning: the number of
@@ -210,6 +211,124 @@ def step (cfg : Cfg) (s : State) (actions : List Int) : State × TimeStep Obs :=
   let terminate := s'.foods.all (fun f => f.eaten)
   let truncate := decide (s'.stepCount ≥ cfg.timeLimit)
   (s', switch3 terminate truncate reward (observe cfg s') (some s.agents.length))
+
+/-! ### L1: `generator.RandomGenerator` (randomness = the draw `GenDraw`; PRNG keys are not modelled) -/
+
+/-- the generator's constructor arguments (`fov` only matters to the environment, see `Cfg`) -/
+structure GenCfg where
+  gridSize : Nat
+  numAgents : Nat
+  numFood : Nat
+  maxAgentLevel : Int
+  forceCoop : Bool
+  deriving Repr, DecidableEq
+
+/-- what `RandomGenerator.__call__` draws: the flat food cells (one `jax.random.choice(p=mask)` per scan step),
+the flat agent cells (`choice(shape=(A,), replace=False, p=mask)`), the agent levels (`randint`) and the food
+levels (`randint`; drawn but unused under `force_coop`) -/
+structure GenDraw where
+  foodFlat : List Int
+  agentFlat : List Int
+  agentLevels : List Int
+  foodLevels : List Int
+  deriving Repr, DecidableEq
+
+/-- `mask.at[idxs].set(False)` (each index: wrap once, drop if out of range) -/
+def clearAll (mask : List Bool) (idxs : List Int) : List Bool :=
+  idxs.foldl (fun m i => Jx.setWD m i false) mask
+
+/-- the `n` values `start, start + step, …` of a `jnp.arange` -/
+def arangeN (start step : Int) (n : Nat) : List Int := (List.range n).map (fun (i : Nat) => start + step * (i : Int))
+
+/-- `sample_food`: the initial mask, all ones with the four edges cleared -/
+def edgeMask (g : Nat) : List Bool :=
+  let flat : Nat := g * g
+  let m0 := List.replicate flat true
+  let m1 := clearAll m0 (arangeN 0 1 g)                              -- top:    arange(g)
+  let m2 := clearAll m1 (arangeN ((flat : Int) - (g : Int)) 1 g)     -- bottom: arange(flat - g, flat)
+  let m3 := clearAll m2 (arangeN 0 (g : Int) g)                      -- left:   arange(0, flat, g)
+  clearAll m3 (arangeN ((g : Int) - 1) (g : Int) g)                  -- right:  arange(g - 1, flat, g)
+
+/-- `take_positions(mask, key)` with the drawn cell `p`: clear `p` and its four flat neighbours -/
+def takePositions (g : Nat) (mask : List Bool) (p : Int) : List Bool × Int :=
+  (clearAll mask [p, p + 1, p - 1, p + (g : Int), p - (g : Int)], p)
+
+/-- `jax.lax.scan(take_positions, mask, keys)`: final carry and the stacked outputs -/
+def scanFood (g : Nat) : List Bool → List Int → List Bool × List Int
+  | m, [] => (m, [])
+  | m, p :: ps =>
+    let r := takePositions g m p
+    let rest := scanFood g r.1 ps
+    (rest.1, r.2 :: rest.2)
+
+/-- `jnp.unravel_index(flat, (g, g))` -/
+def unravel (g : Nat) (p : Int) : Pos := (p / (g : Int), p % (g : Int))
+
+/-- `sample_food` -/
+def sampleFood (g : Nat) (foodFlat : List Int) : List Pos :=
+  (scanFood g (edgeMask g) foodFlat).2.map (unravel g)
+
+/-- `grid.at[x, y].set(v)` on a 2-d array: each index wraps once, the update is dropped if either is out of range -/
+def set2WD (grid : List (List Bool)) (x y : Int) (v : Bool) : List (List Bool) :=
+  let i := Jx.wrapIdx grid.length x
+  if i < 0 then grid else if i ≥ (grid.length : Int) then grid
+  else grid.set i.toNat (Jx.setWD (grid.getD i.toNat []) y v)
+
+/-- `jnp.ones((g, g)).at[food_x, food_y].set(False).ravel()` -/
+def agentMask (g : Nat) (foodPos : List Pos) : List Bool :=
+  (foodPos.foldl (fun m p => set2WD m p.1 p.2 false) (List.replicate g (List.replicate g true))).flatten
+
+/-- `jnp.sort` (ascending) as an insertion sort (structural, so that closed instances evaluate by `decide`;
+`sortAsc_eq_mergeSort` in Gen.lean: it is the sorted permutation) -/
+def insertAsc (x : Int) : List Int → List Int
+  | [] => [x]
+  | y :: ys => if x ≤ y then x :: y :: ys else y :: insertAsc x ys
+
+def sortAsc (l : List Int) : List Int := l.foldr insertAsc []
+
+/-- `jnp.sum(jnp.sort(agent_levels)[:3])` -/
+def maxFoodLevel (agentLevels : List Int) : Int := ((sortAsc agentLevels).take 3).sum
+
+/-- the food draws lie in the support of `choice(p=mask)` for the mask current at their scan step -/
+def validFoodDraws (g : Nat) : List Bool → List Int → Bool
+  | _, [] => true
+  | m, p :: ps =>
+    decide (0 ≤ p) && decide (p < (m.length : Int)) && m.getD p.toNat false &&
+      validFoodDraws g (takePositions g m p).1 ps
+
+/-- the draw lies in the support of the samplers: every food cell has its *current* mask bit set; the agent
+cells are pairwise distinct (`replace=False`) with their mask bit set; agent levels in `[1, max_agent_level]`,
+food levels in `[1, max_food_level]`; one draw per entity -/
+def validDraw (gc : GenCfg) (d : GenDraw) : Bool :=
+  let g := gc.gridSize
+  let mask := agentMask g (sampleFood g d.foodFlat)
+  decide (d.foodFlat.length = gc.numFood) && validFoodDraws g (edgeMask g) d.foodFlat &&
+  decide (d.agentFlat.length = gc.numAgents) && decide d.agentFlat.Nodup &&
+  d.agentFlat.all (fun q => decide (0 ≤ q) && decide (q < (mask.length : Int)) && mask.getD q.toNat false) &&
+  decide (d.agentLevels.length = gc.numAgents) &&
+  d.agentLevels.all (fun l => decide (1 ≤ l) && decide (l ≤ gc.maxAgentLevel)) &&
+  decide (d.foodLevels.length = gc.numFood) &&
+  d.foodLevels.all (fun l => decide (1 ≤ l) && decide (l ≤ maxFoodLevel d.agentLevels))
+
+/-- `RandomGenerator.__call__` -/
+def generate (gc : GenCfg) (d : GenDraw) : State :=
+  let g := gc.gridSize
+  let foodPos := sampleFood g d.foodFlat
+  let agentPos := d.agentFlat.map (unravel g)                       -- `sample_agents`
+  let agentLevels := d.agentLevels
+  let maxFood := maxFoodLevel agentLevels
+  let foodLevels := if gc.forceCoop then List.replicate gc.numFood maxFood else d.foodLevels
+  { agents := (List.range gc.numAgents).map (fun (i : Nat) =>
+      { id := (i : Int), pos := agentPos.getD i (0, 0), level := agentLevels.getD i 0, loading := false }),
+    foods := (List.range gc.numFood).map (fun (k : Nat) =>
+      { id := (k : Int), pos := foodPos.getD k (0, 0), level := foodLevels.getD k 0, eaten := false }),
+    stepCount := 0 }
+
+/-- the constructor's assertions (`fov` is asserted against `Cfg.fov` by the environment's users) -/
+def GenCfg.Valid (gc : GenCfg) : Prop :=
+  5 ≤ gc.gridSize ∧ 0 < gc.numAgents ∧ 0 < gc.numFood ∧ 2 ≤ gc.maxAgentLevel ∧
+  5 * gc.numFood + gc.numAgents < (gc.gridSize - 2) * (gc.gridSize - 2)
+instance (gc : GenCfg) : Decidable gc.Valid := by unfold GenCfg.Valid; infer_instance
 
 /-! ### L2: the rules -/
 
